@@ -689,7 +689,9 @@ func NormalisePathIDs(m *bgp.BGPMessage, o *bgp.MarshallingOption) {
 	if !ok {
 		return
 	}
-	on := func(f bgp.Family) bool { return o != nil && o.AddPath != nil && o.AddPath[f]&bgp.BGP_ADD_PATH_SEND != 0 }
+	on := func(f bgp.Family) bool {
+		return o != nil && o.AddPath != nil && o.AddPath[f]&bgp.BGP_ADD_PATH_SEND != 0
+	}
 	fix := func(f bgp.Family, l []bgp.PathNLRI) {
 		if on(f) {
 			return
